@@ -116,3 +116,42 @@ Theorem C18_unlocked_fill_refuted : exists progs sched,
   let '(sh, ts, hist) := locked_run false progs sched in write_once_from [] hist = false.
 Proof. exact ConcLockProofs.unlocked_fill_refuted. Qed.
 Print Assumptions C18_unlocked_fill_refuted.
+
+(* ---- free-running observers (no scheduler): Sem/ConcFree.v ------------------------------------ *)
+From RS Require Import Stream.Tree Api.ApiHist Sem.ConcFree Sem.HashEq Checkers.ChkHist Checkers.ChkTree.
+From RS Require Proofs.ConcFreeProofs Proofs.ColdCache Proofs.RStreamTree Proofs.BoundsPos Proofs.WarmTreeHist.
+
+(* on a tree without CachedSource nodes (RawSource / RawBufferSource with their lazy decode,
+   OriginalSource, SourceMapSource, ConcatSource, ReplaceSource with its lazy sort) every thread,
+   under EVERY interleaving of whole observer calls, gets the answers of fresh objects *)
+Theorem C18_free_running_observers : forall s, has_cached s = false ->
+  forall (l : list (nat * hop)) (tid : nat),
+    thread_view tid (fst (run_tagged [] s l)) = fresh_answers s (thread_view tid l).
+Proof. exact ConcFreeProofs.free_running. Qed.
+Print Assumptions C18_free_running_observers.
+
+Theorem C18_free_running_programs : forall s progs, has_cached s = false ->
+  forall l, interleaving_of progs l ->
+  forall tid, thread_view tid (fst (run_tagged [] s l)) = fresh_answers s (nth tid progs []).
+Proof. exact ConcFreeProofs.free_running_programs. Qed.
+Print Assumptions C18_free_running_programs.
+
+(* not vacuous: running the threads one after the other is an interleaving of the programs *)
+Theorem C18_thread_major_is_interleaving : forall progs, interleaving_of progs (thread_major 0 progs).
+Proof. exact ConcFreeProofs.thread_major_interleaving. Qed.
+Print Assumptions C18_thread_major_is_interleaving.
+
+(* with CachedSource nodes anywhere (any warm state reached by the interleaving itself), outside the
+   K2 shape: every call of every interleaving attributes as the freshly built cache-free tree *)
+Theorem C18_free_running_with_caches : forall s l,
+  ColdCache.ids_distinct s -> k2_shape s = false ->
+  RStreamTree.rshape (ColdCache.uncache s) = true -> treeA s = true ->
+  RStreamTree.rsmall (ColdCache.uncache s) = true -> BoundsPos.tiny (ColdCache.uncache s) = true ->
+  answers_equiv (source s) (map snd l) (map snd (fst (run_tagged [] s l)))
+                (fresh_answers (ColdCache.uncache s) (map snd l)) 0 = 0.
+Proof.
+  intros s l H1 H2 H3 H4 H5 H6.
+  rewrite (proj1 (ConcFreeProofs.run_tagged_hops s l [])).
+  exact (WarmTreeHist.warm_history_transparent s [] (map snd l) H1 H2 H3 H4 H5 H6).
+Qed.
+Print Assumptions C18_free_running_with_caches.
